@@ -61,7 +61,7 @@ fn main() {
         match wl.as_str() {
             // upper-layer workloads observe the API; chmux hook events would only bloat their traces
             "rwlock" => install_hook_sink_for(&["rw_"]),
-            "robs_script" | "bcast" | "watch" | "typed_base" | "typed_mpsc" | "rtc" | "rtc_once" | "rfn" | "robs_chain" | "robs_err" | "robs_list" | "io" | "wiring" | "handle" | "lazy" | "stream_hostile" | "bcast_threads" => {}
+            "robs_script" | "bcast" | "watch" | "typed_base" | "typed_mpsc" | "rtc" | "rtc_once" | "rfn" | "robs_chain" | "robs_err" | "robs_list" | "io" | "wiring" | "handle" | "lazy" | "stream_hostile" | "bcast_threads" | "wake" => {}
             _ => install_hook_sink(),
         }
         match wl.as_str() {
@@ -151,6 +151,9 @@ fn main() {
             }
             "robs_chain" => {
                 rt.block_on(robs::chain_scenario(s, get("coll", 4)));
+            }
+            "wake" => {
+                rt.block_on(chmux_misc::wake_scenario(s));
             }
             "bcast_threads" => {
                 rt.block_on(bcast_watch::broadcast_threads(s));
